@@ -58,8 +58,14 @@ package ledger
 //@   ensures err == nil ==> (nInsertMoves == old(nInsertMoves) + 1) == (store.ledger.Features["MOVES_HISTORY"] == "ON")
 //@   ensures err == nil && store.ledger.Features["MOVES_HISTORY"] != "ON" ==> nInsertMoves == old(nInsertMoves)
 //@   ensures err == nil && nInsertMoves == old(nInsertMoves) + 1 ==> len(lastMoves) == 2 * len(tx.Postings)
-//@   ensures err == nil && nInsertMoves == old(nInsertMoves) + 1 ==> forall i int :: {tx.Postings[i]} 0 <= i && i < len(tx.Postings) ==> lastMoves[2 * i] != nil && lastMoves[2 * i].PostCommitVolumes != nil && lastMoves[2 * i].IsSource && lastMoves[2 * i].Account == tx.Postings[i].Source && lastMoves[2 * i].Asset == tx.Postings[i].Asset && lastMoves[2 * i].Amount == tx.Postings[i].Amount && val(lastMoves[2 * i].PostCommitVolumes.Input) == runIn(tx.Postings, lastPCV, i, tx.Postings[i].Source, tx.Postings[i].Asset) && val(lastMoves[2 * i].PostCommitVolumes.Output) == runOut(tx.Postings, lastPCV, i + 1, tx.Postings[i].Source, tx.Postings[i].Asset)
-//@   ensures err == nil && nInsertMoves == old(nInsertMoves) + 1 ==> forall i int :: {tx.Postings[i]} 0 <= i && i < len(tx.Postings) ==> lastMoves[2 * i + 1] != nil && lastMoves[2 * i + 1].PostCommitVolumes != nil && !lastMoves[2 * i + 1].IsSource && lastMoves[2 * i + 1].Account == tx.Postings[i].Destination && lastMoves[2 * i + 1].Asset == tx.Postings[i].Asset && lastMoves[2 * i + 1].Amount == tx.Postings[i].Amount && val(lastMoves[2 * i + 1].PostCommitVolumes.Input) == runIn(tx.Postings, lastPCV, i + 1, tx.Postings[i].Destination, tx.Postings[i].Asset) && val(lastMoves[2 * i + 1].PostCommitVolumes.Output) == runOut(tx.Postings, lastPCV, i + 1, tx.Postings[i].Destination, tx.Postings[i].Asset)
+//@   ensures err == nil && nInsertMoves == old(nInsertMoves) + 1 ==> forall i int :: {tx.Postings[i]} 0 <= i && i < len(tx.Postings) ==> lastMoves[2 * i] != nil && lastMoves[2 * i].PostCommitVolumes != nil && lastMoves[2 * i].IsSource && lastMoves[2 * i].Account == tx.Postings[i].Source
+//@   ensures err == nil && nInsertMoves == old(nInsertMoves) + 1 ==> forall i int :: {tx.Postings[i]} 0 <= i && i < len(tx.Postings) ==> lastMoves[2 * i] != nil && lastMoves[2 * i].Asset == tx.Postings[i].Asset && lastMoves[2 * i].Amount == tx.Postings[i].Amount
+//@   ensures err == nil && nInsertMoves == old(nInsertMoves) + 1 ==> forall i int :: {tx.Postings[i]} 0 <= i && i < len(tx.Postings) ==> lastMoves[2 * i] != nil && lastMoves[2 * i].PostCommitVolumes != nil && val(lastMoves[2 * i].PostCommitVolumes.Input) == runIn(tx.Postings, lastPCV, i, tx.Postings[i].Source, tx.Postings[i].Asset)
+//@   ensures err == nil && nInsertMoves == old(nInsertMoves) + 1 ==> forall i int :: {tx.Postings[i]} 0 <= i && i < len(tx.Postings) ==> lastMoves[2 * i] != nil && lastMoves[2 * i].PostCommitVolumes != nil && val(lastMoves[2 * i].PostCommitVolumes.Output) == runOut(tx.Postings, lastPCV, i + 1, tx.Postings[i].Source, tx.Postings[i].Asset)
+//@   ensures err == nil && nInsertMoves == old(nInsertMoves) + 1 ==> forall i int :: {tx.Postings[i]} 0 <= i && i < len(tx.Postings) ==> lastMoves[2 * i + 1] != nil && lastMoves[2 * i + 1].PostCommitVolumes != nil && !lastMoves[2 * i + 1].IsSource && lastMoves[2 * i + 1].Account == tx.Postings[i].Destination
+//@   ensures err == nil && nInsertMoves == old(nInsertMoves) + 1 ==> forall i int :: {tx.Postings[i]} 0 <= i && i < len(tx.Postings) ==> lastMoves[2 * i + 1] != nil && lastMoves[2 * i + 1].Asset == tx.Postings[i].Asset && lastMoves[2 * i + 1].Amount == tx.Postings[i].Amount
+//@   ensures err == nil && nInsertMoves == old(nInsertMoves) + 1 ==> forall i int :: {tx.Postings[i]} 0 <= i && i < len(tx.Postings) ==> lastMoves[2 * i + 1] != nil && lastMoves[2 * i + 1].PostCommitVolumes != nil && val(lastMoves[2 * i + 1].PostCommitVolumes.Input) == runIn(tx.Postings, lastPCV, i + 1, tx.Postings[i].Destination, tx.Postings[i].Asset)
+//@   ensures err == nil && nInsertMoves == old(nInsertMoves) + 1 ==> forall i int :: {tx.Postings[i]} 0 <= i && i < len(tx.Postings) ==> lastMoves[2 * i + 1] != nil && lastMoves[2 * i + 1].PostCommitVolumes != nil && val(lastMoves[2 * i + 1].PostCommitVolumes.Output) == runOut(tx.Postings, lastPCV, i + 1, tx.Postings[i].Destination, tx.Postings[i].Asset)
 //@   loop 1:
 //@     index k
 //@     mention pcvHas(lastPCV, posting.Source, posting.Asset)
